@@ -236,6 +236,16 @@ def build(c, variant):
         o = a @ x + y
         m.maxinf(o, fs)
         w.obj = ("R", [-o])
+    elif obj_kind == "R-maxof":
+        # worst case (no expectation) of a piecewise objective: the epigraph decision dominates every piece on every support
+        p1 = a @ x + zz * x[1]
+        p2 = y - zz
+        m.minsup(rsome.maxof(p1, p2), fs)
+        w.obj = ("R", [p1, p2])
+    elif obj_kind == "R-convex":
+        cvo = rsome.norm(x, 1) + y
+        m.minsup(cvo, fs)
+        w.obj = ("R", [cvo])
     elif obj_kind == "E-maxof":
         p1 = a @ x + zz * x[1]
         p2 = y - zz
@@ -357,6 +367,8 @@ VARIANTS = {
     "event-wise-bound,E-affine,expt-all,exp-cone-constraints": dict(obj="E-affine", expt="all", adapt="event-y", expcones=True),
     "event,E-affine,expt-all,equalities": dict(obj="E-affine", expt="all", adapt="event", equalities=True),
     "affine,E-affine,expt-all,equalities": dict(obj="E-affine", expt="all", adapt="affine", equalities=True),
+    "event,R-maxof-objective,expt-all": dict(obj="R-maxof", expt="all", adapt="event"),
+    "static,R-convex-objective,expt-all": dict(obj="R-convex", expt="all"),
     "static,maxinf-E-affine,expt-all": dict(obj="maxinf-E-affine", expt="all"),
     "event,maxinf-E-affine,expt-per-scenario,prob-ub": dict(obj="maxinf-E-affine", expt="per-scenario", prob="ub", adapt="event"),
     "static,max-R-objective,expt-all,econstr": dict(obj="max-R", expt="all", econstr=True),
@@ -434,8 +446,9 @@ def run_variant(vname):
                 t.append(p_implies(p_and(feas, in_support(w, s, Z, True)), p_and(*[p_le(v, 0) for v in vals])))
         if w.obj[0] == "R":
             for s in range(w.S):
-                ov = dec_value(w.obj[1][0], w.m, s, X, Z)[0]
-                t.append(p_implies(p_and(feas, in_support(w, s, Z)), p_le(ov, X[0])))
+                for piece in w.obj[1]:
+                    ov = dec_value(piece, w.m, s, X, Z)[0]
+                    t.append(p_implies(p_and(feas, in_support(w, s, Z)), p_le(ov, X[0])))
         return p_and(*t)
 
     def e_items(ns):
